@@ -11,6 +11,7 @@ from props.slicing_kernels import kernels  # noqa: F401  (same traced kernels as
 ID = "C02"
 N_CASES = {"quick": 240, "thorough": 5000, "search": 2500}
 SHARD = 60
+EXTRA_TARGETS = ["proofs/P_slicing_tie.vo"]  # imported by the generated tie lemmas only
 RULE = ("seeded random meshes as for C01 with more empty inputs (zero vertices / zero faces / everything behind), "
         "int32 face arrays, unreferenced vertices, masks, both ret_face_mapping; each case is also re-sliced, sliced "
         "with the flipped plane, with permuted faces and with relabelled vertices; plus direct calls of "
